@@ -544,6 +544,270 @@ Qed.
 Lemma recvw_any_open ot kids : recvw (Some CAny) (WOpen ot kids) = recvw None (WOpen ot kids).
 Proof. destruct ot; reflexivity. Qed.
 
+(* ------------------------------------------------------------------ UTF-8: encoder, strict decoder *)
+Lemma utf8_encode_cp_len cp : zlen (utf8_encode_cp cp) = utf8len cp.
+Proof.
+  unfold utf8_encode_cp, utf8len. destruct (cp <? 128), (cp <? 2048), (cp <? 65536); reflexivity.
+Qed.
+
+Lemma utf8_encode_size cps : zlen (utf8_encode cps) = utf8size cps.
+Proof.
+  induction cps as [|cp cps IH]; [reflexivity|].
+  unfold utf8_encode. cbn [flat_map]. fold (utf8_encode cps). unfold zlen. rewrite app_length, Nat2Z.inj_add.
+  fold (zlen (utf8_encode_cp cp)). fold (zlen (utf8_encode cps)). rewrite utf8_encode_cp_len, IH. reflexivity.
+Qed.
+
+Lemma in_range a b x : a <= x <= b -> (a <=? x) && (x <=? b) = true.
+Proof. intros. apply andb_true_iff. split; apply Z.leb_le; lia. Qed.
+Lemma below_range a b x : x < a -> (a <=? x) && (x <=? b) = false.
+Proof. intros. apply andb_false_iff. left. apply Z.leb_gt. lia. Qed.
+Lemma above_range a b x : b < x -> (a <=? x) && (x <=? b) = false.
+Proof. intros. apply andb_false_iff. right. apply Z.leb_gt. lia. Qed.
+Lemma not_ascii x : 128 <= x -> (0 <=? x) && (x <? 128) = false.
+Proof. intros. apply andb_false_iff. right. apply Z.ltb_ge. lia. Qed.
+
+Lemma utf8_valid1 b r : 0 <= b < 128 -> utf8_valid (b :: r) = utf8_valid r.
+Proof.
+  intros. cbn [utf8_valid]. replace ((0 <=? b) && (b <? 128)) with true; [reflexivity|].
+  symmetry. apply andb_true_iff. split; [apply Z.leb_le|apply Z.ltb_lt]; lia.
+Qed.
+
+Lemma utf8_valid2 b0 b1 r : 194 <= b0 <= 223 -> 128 <= b1 <= 191 -> utf8_valid (b0 :: b1 :: r) = utf8_valid r.
+Proof.
+  intros. cbn [utf8_valid]. unfold u8cont. rewrite (not_ascii b0) by lia. rewrite (in_range 194 223 b0) by lia.
+  rewrite (in_range 128 191 b1) by lia. reflexivity.
+Qed.
+
+Lemma utf8_valid3 b0 b1 b2 r : 224 <= b0 <= 239 -> 128 <= b1 <= 191 -> 128 <= b2 <= 191 ->
+  (b0 = 224 -> 160 <= b1) -> (b0 = 237 -> b1 <= 159) -> utf8_valid (b0 :: b1 :: b2 :: r) = utf8_valid r.
+Proof.
+  intros A B C D E. cbn [utf8_valid]. unfold u8cont. rewrite (not_ascii b0) by lia. rewrite (above_range 194 223 b0) by lia.
+  rewrite (in_range 224 239 b0) by lia. rewrite (in_range 128 191 b2) by lia.
+  destruct (Z.eqb_spec b0 224) as [X|X]; [rewrite (in_range 160 191 b1) by lia; reflexivity|].
+  destruct (Z.eqb_spec b0 237) as [Y|Y]; [rewrite (in_range 128 159 b1) by lia; reflexivity|].
+  rewrite (in_range 128 191 b1) by lia. reflexivity.
+Qed.
+
+Lemma utf8_valid4 b0 b1 b2 b3 r : 240 <= b0 <= 244 -> 128 <= b1 <= 191 -> 128 <= b2 <= 191 -> 128 <= b3 <= 191 ->
+  (b0 = 240 -> 144 <= b1) -> (b0 = 244 -> b1 <= 143) -> utf8_valid (b0 :: b1 :: b2 :: b3 :: r) = utf8_valid r.
+Proof.
+  intros A B C C' D E. cbn [utf8_valid]. unfold u8cont. rewrite (not_ascii b0) by lia. rewrite (above_range 194 223 b0) by lia.
+  rewrite (above_range 224 239 b0) by lia. rewrite (in_range 240 244 b0) by lia.
+  rewrite (in_range 128 191 b2) by lia. rewrite (in_range 128 191 b3) by lia.
+  destruct (Z.eqb_spec b0 240) as [X|X]; [rewrite (in_range 144 191 b1) by lia; reflexivity|].
+  destruct (Z.eqb_spec b0 244) as [Y|Y]; [rewrite (in_range 128 143 b1) by lia; reflexivity|].
+  rewrite (in_range 128 191 b1) by lia. reflexivity.
+Qed.
+
+Lemma utf8_encode_cp_valid cp r : cp_encodable cp = true -> utf8_valid (utf8_encode_cp cp ++ r) = utf8_valid r.
+Proof.
+  unfold cp_encodable. intros E.
+  apply andb_true_iff in E as [E E3]. apply andb_true_iff in E as [E1 E2].
+  apply Z.leb_le in E1, E2. apply negb_true_iff in E3.
+  assert (S : cp < 55296 \/ 57343 < cp).
+  { destruct (Z.leb_spec 55296 cp), (Z.leb_spec cp 57343); cbn in E3; try discriminate; lia. }
+  clear E3. unfold utf8_encode_cp.
+  destruct (Z.ltb_spec cp 128); [apply utf8_valid1; lia|].
+  destruct (Z.ltb_spec cp 2048).
+  { cbn [app]. apply utf8_valid2.
+    - pose proof (Z.div_le_mono 128 cp 64 ltac:(lia) ltac:(lia)). pose proof (Z.div_lt_upper_bound cp 64 32 ltac:(lia) ltac:(lia)).
+      change (128 / 64) with 2 in *. lia.
+    - pose proof (Z.mod_pos_bound cp 64 ltac:(lia)). lia. }
+  destruct (Z.ltb_spec cp 65536).
+  { cbn [app]. 
+    pose proof (Z.mod_pos_bound cp 64 ltac:(lia)). pose proof (Z.mod_pos_bound (cp / 64) 64 ltac:(lia)).
+    assert (Q1 : cp / 4096 = (cp / 64) / 64) by (rewrite Z.div_div by lia; reflexivity).
+    pose proof (Z.div_mod cp 64 ltac:(lia)) as M1. pose proof (Z.div_mod (cp / 64) 64 ltac:(lia)) as M2.
+    set (q := cp / 64) in *. set (h := q / 64) in *. set (m1 := cp mod 64) in *. set (m2 := q mod 64) in *. rewrite Q1.
+    apply utf8_valid3; lia. }
+  cbn [app].
+  pose proof (Z.mod_pos_bound cp 64 ltac:(lia)). pose proof (Z.mod_pos_bound (cp / 64) 64 ltac:(lia)).
+  pose proof (Z.mod_pos_bound (cp / 4096) 64 ltac:(lia)).
+  assert (Q1 : cp / 4096 = (cp / 64) / 64) by (rewrite Z.div_div by lia; reflexivity).
+  assert (Q2 : cp / 262144 = ((cp / 64) / 64) / 64) by (rewrite !Z.div_div by lia; reflexivity).
+  rewrite Q2. rewrite Q1 in *.
+  pose proof (Z.div_mod cp 64 ltac:(lia)) as M1. pose proof (Z.div_mod (cp / 64) 64 ltac:(lia)) as M2.
+  pose proof (Z.div_mod (cp / 64 / 64) 64 ltac:(lia)) as M3.
+  set (q := cp / 64) in *. set (h := q / 64) in *. set (g := h / 64) in *.
+  set (m1 := cp mod 64) in *. set (m2 := q mod 64) in *. set (m3 := h mod 64) in *.
+  apply utf8_valid4; lia.
+Qed.
+
+Theorem utf8_encode_valid cps : text_encodable cps = true -> utf8_valid (utf8_encode cps) = true /\ zlen (utf8_encode cps) = utf8size cps.
+Proof.
+  intros E. split; [|apply utf8_encode_size].
+  induction cps as [|cp cps IH]; [reflexivity|]. unfold text_encodable in E. cbn [forallb] in E. apply andb_true_iff in E as [E1 E2].
+  unfold utf8_encode. cbn [flat_map]. fold (utf8_encode cps). rewrite utf8_encode_cp_valid by exact E1. apply IH. exact E2.
+Qed.
+
+(* a lone surrogate in its generic three-byte form (what errors="surrogatepass" emits) is refused by the strict decoder *)
+Lemma utf8_surrogate_invalid cp r : 55296 <= cp <= 57343 -> utf8_valid (utf8_encode_cp cp ++ r) = false.
+Proof.
+  intros R. unfold utf8_encode_cp. destruct (Z.ltb_spec cp 128); [lia|]. destruct (Z.ltb_spec cp 2048); [lia|].
+  destruct (Z.ltb_spec cp 65536); [|lia]. cbn [app].
+  pose proof (Z.mod_pos_bound cp 64 ltac:(lia)). pose proof (Z.mod_pos_bound (cp / 64) 64 ltac:(lia)).
+  assert (Q1 : cp / 4096 = (cp / 64) / 64) by (rewrite Z.div_div by lia; reflexivity).
+  pose proof (Z.div_mod cp 64 ltac:(lia)) as M1. pose proof (Z.div_mod (cp / 64) 64 ltac:(lia)) as M2.
+  set (q := cp / 64) in *. set (h := q / 64) in *. set (m1 := cp mod 64) in *. set (m2 := q mod 64) in *. rewrite Q1.
+  assert (Hh : h = 13) by lia. rewrite Hh. change (224 + 13) with 237.
+  cbn [utf8_valid]. change ((0 <=? 237) && (237 <? 128)) with false. change ((194 <=? 237) && (237 <=? 223)) with false.
+  change ((224 <=? 237) && (237 <=? 239)) with true. change (237 =? 224) with false. change (237 =? 237) with true. cbv iota.
+  rewrite (above_range 128 159 (128 + m2)) by lia. reflexivity.
+Qed.
+
+Definition cp_in_range (cp : Z) : bool := (0 <=? cp) && (cp <=? 1114111).
+
+(* the receiver's strict decoder accepts the generic UTF-8 form of a text exactly when the text is encodable: what the
+   strict encoder refuses is what the receiver would refuse *)
+Theorem utf8_encode_valid_iff cps : forallb cp_in_range cps = true -> utf8_valid (utf8_encode cps) = text_encodable cps.
+Proof.
+  induction cps as [|cp cps IH]; [reflexivity|]. cbn [forallb]. intros E. apply andb_true_iff in E as [E1 E2].
+  unfold utf8_encode, text_encodable. cbn [flat_map forallb]. fold (utf8_encode cps). fold (text_encodable cps).
+  destruct (cp_encodable cp) eqn:C.
+  - rewrite utf8_encode_cp_valid by exact C. cbn [andb]. apply IH. exact E2.
+  - cbn [andb]. apply utf8_surrogate_invalid. unfold cp_in_range in E1. unfold cp_encodable in C.
+    rewrite E1 in C. cbn [andb] in C. apply negb_false_iff in C. apply andb_true_iff in C as [C1 C2].
+    apply Z.leb_le in C1, C2. lia.
+Qed.
+
+
+(* ... and decoding gives the text back: utf8_decode inverts utf8_encode (lone surrogates in their generic form included,
+   which is what the lenient decoder would deliver) *)
+Lemma utf8_decode_encode_cp cp r : cp_in_range cp = true -> utf8_decode (utf8_encode_cp cp ++ r) = cp :: utf8_decode r.
+Proof.
+  intros R. unfold cp_in_range in R. apply andb_true_iff in R as [R1 R2]. apply Z.leb_le in R1, R2.
+  unfold utf8_encode_cp.
+  destruct (Z.ltb_spec cp 128) as [A|A].
+  { cbn [app utf8_decode]. destruct (Z.ltb_spec cp 128); [reflexivity|lia]. }
+  destruct (Z.ltb_spec cp 2048) as [B|B].
+  { pose proof (Z.div_mod cp 64 ltac:(lia)) as D. pose proof (Z.mod_pos_bound cp 64 ltac:(lia)) as M.
+    assert (2 <= cp / 64 < 32) by (split; [apply Z.div_le_lower_bound; lia|apply Z.div_lt_upper_bound; lia]).
+    cbn [app utf8_decode].
+    destruct (Z.ltb_spec (192 + cp / 64) 128); [lia|]. destruct (Z.ltb_spec (192 + cp / 64) 224); [|lia].
+    f_equal. lia. }
+  destruct (Z.ltb_spec cp 65536) as [C|C].
+  { pose proof (Z.div_mod cp 64 ltac:(lia)) as D. pose proof (Z.mod_pos_bound cp 64 ltac:(lia)) as M.
+    pose proof (Z.div_mod (cp / 64) 64 ltac:(lia)) as D2. pose proof (Z.mod_pos_bound (cp / 64) 64 ltac:(lia)) as M2.
+    assert (E : cp / 4096 = cp / 64 / 64) by (rewrite Z.div_div by lia; reflexivity).
+    assert (0 <= cp / 4096 < 16) by (split; [apply Z.div_le_lower_bound; lia|apply Z.div_lt_upper_bound; lia]).
+    cbn [app utf8_decode].
+    destruct (Z.ltb_spec (224 + cp / 4096) 128); [lia|]. destruct (Z.ltb_spec (224 + cp / 4096) 224); [lia|].
+    destruct (Z.ltb_spec (224 + cp / 4096) 240); [|lia].
+    f_equal. lia. }
+  pose proof (Z.div_mod cp 64 ltac:(lia)) as D. pose proof (Z.mod_pos_bound cp 64 ltac:(lia)) as M.
+  pose proof (Z.div_mod (cp / 64) 64 ltac:(lia)) as D2. pose proof (Z.mod_pos_bound (cp / 64) 64 ltac:(lia)) as M2.
+  pose proof (Z.div_mod (cp / 4096) 64 ltac:(lia)) as D3. pose proof (Z.mod_pos_bound (cp / 4096) 64 ltac:(lia)) as M3.
+  assert (E : cp / 4096 = cp / 64 / 64) by (rewrite Z.div_div by lia; reflexivity).
+  assert (E2 : cp / 262144 = cp / 4096 / 64) by (rewrite Z.div_div by lia; reflexivity).
+  assert (0 <= cp / 262144 < 5) by (split; [apply Z.div_le_lower_bound; lia|apply Z.div_lt_upper_bound; lia]).
+  cbn [app utf8_decode].
+  destruct (Z.ltb_spec (240 + cp / 262144) 128); [lia|]. destruct (Z.ltb_spec (240 + cp / 262144) 224); [lia|].
+  destruct (Z.ltb_spec (240 + cp / 262144) 240); [lia|].
+  f_equal. lia.
+Qed.
+
+Theorem utf8_decode_encode cps : forallb cp_in_range cps = true -> utf8_decode (utf8_encode cps) = cps.
+Proof.
+  induction cps as [|cp cps IH]; [reflexivity|]. cbn [forallb]. intros E. apply andb_true_iff in E as [E1 E2].
+  unfold utf8_encode. cbn [flat_map]. fold (utf8_encode cps). rewrite utf8_decode_encode_cp by exact E1. rewrite IH by exact E2. reflexivity.
+Qed.
+
+Lemma encodable_in_range cps : text_encodable cps = true -> forallb cp_in_range cps = true.
+Proof.
+  unfold text_encodable. induction cps as [|cp cps IH]; [reflexivity|]. cbn [forallb]. intros E. apply andb_true_iff in E as [E1 E2].
+  rewrite (IH E2), andb_true_r. unfold cp_encodable in E1. unfold cp_in_range.
+  apply andb_true_iff in E1 as [E1 _]. exact E1.
+Qed.
+
+(* the honest body: valid, of the announced length, and it decodes to the text that was sent *)
+Theorem utf8_roundtrip cps : text_encodable cps = true ->
+  utf8_valid (utf8_encode cps) = true /\ zlen (utf8_encode cps) = utf8size cps /\ utf8_decode (utf8_encode cps) = cps.
+Proof.
+  intros E. destruct (utf8_encode_valid cps E) as [A B]. split; [exact A|split; [exact B|]].
+  apply utf8_decode_encode, encodable_in_range, E.
+Qed.
+
+Lemma u8cont_spec c : u8cont c = true -> 128 <= c <= 191.
+Proof. unfold u8cont. intros H. apply andb_true_iff in H as [A B]. apply Z.leb_le in A, B. lia. Qed.
+
+Lemma range_spec a b x : (a <=? x) && (x <=? b) = true -> a <= x <= b.
+Proof. intros H. apply andb_true_iff in H as [A B]. apply Z.leb_le in A, B. lia. Qed.
+
+(* a body the strict decoder accepts is the UTF-8 form of the text it decodes to, and that text is encodable: no two accepted
+   bodies stand for the same text, and what user code receives could have been sent by an honest UnicodeSlicer *)
+Lemma utf8_valid_decode_fuel : forall n l, (List.length l <= n)%nat -> utf8_valid l = true ->
+  utf8_encode (utf8_decode l) = l /\ text_encodable (utf8_decode l) = true.
+Proof.
+  induction n as [|n IH]; intros l L V.
+  { destruct l; [split; reflexivity|cbn in L; lia]. }
+  destruct l as [|b r]; [split; reflexivity|]. cbn [List.length] in L.
+  cbn [utf8_valid] in V.
+  destruct ((0 <=? b) && (b <? 128)) eqn:A.
+  { apply andb_true_iff in A as [A1 A2]. apply Z.leb_le in A1. apply Z.ltb_lt in A2.
+    destruct (IH r ltac:(lia) V) as [E T]. cbn [utf8_decode]. destruct (Z.ltb_spec b 128); [|lia].
+    unfold utf8_encode, text_encodable in *. cbn [flat_map forallb]. rewrite E, T. unfold utf8_encode_cp, cp_encodable.
+    destruct (Z.ltb_spec b 128); [|lia]. split; [reflexivity|].
+    rewrite andb_true_r. apply andb_true_iff. split; [apply andb_true_iff; split; apply Z.leb_le; lia|].
+    apply negb_true_iff. apply andb_false_iff. left. apply Z.leb_gt. lia. }
+  destruct ((194 <=? b) && (b <=? 223)) eqn:B.
+  { apply range_spec in B. destruct r as [|c1 r1]; [discriminate|]. apply andb_true_iff in V as [C1 V]. apply u8cont_spec in C1.
+    cbn [List.length] in L. destruct (IH r1 ltac:(lia) V) as [E T]. cbn [utf8_decode].
+    destruct (Z.ltb_spec b 128); [lia|]. destruct (Z.ltb_spec b 224); [|lia].
+    set (cp := (b - 192) * 64 + (c1 - 128)).
+    assert (Q : cp / 64 = b - 192 /\ cp mod 64 = c1 - 128).
+    { pose proof (Z.div_mod cp 64 ltac:(lia)). pose proof (Z.mod_pos_bound cp 64 ltac:(lia)). unfold cp in *. lia. }
+    destruct Q as [Q1 Q2]. assert (R : 128 <= cp < 2048) by (unfold cp; lia).
+    unfold utf8_encode, text_encodable in *. cbn [flat_map forallb]. rewrite E, T. unfold utf8_encode_cp, cp_encodable.
+    destruct (Z.ltb_spec cp 128); [lia|]. destruct (Z.ltb_spec cp 2048); [|lia]. rewrite Q1, Q2. cbn [app]. split; [f_equal; [lia|f_equal; lia]|].
+    rewrite andb_true_r. apply andb_true_iff. split; [apply andb_true_iff; split; apply Z.leb_le; lia|].
+    apply negb_true_iff. apply andb_false_iff. left. apply Z.leb_gt. lia. }
+  destruct ((224 <=? b) && (b <=? 239)) eqn:C.
+  { apply range_spec in C. destruct r as [|c1 [|c2 r2]]; try discriminate. apply andb_true_iff in V as [V V2]. apply andb_true_iff in V as [C1 C2].
+    apply u8cont_spec in C2. cbn [List.length] in L. destruct (IH r2 ltac:(lia) V2) as [E T]. cbn [utf8_decode].
+    destruct (Z.ltb_spec b 128); [lia|]. destruct (Z.ltb_spec b 224); [lia|]. destruct (Z.ltb_spec b 240); [|lia].
+    assert (C1' : 128 <= c1 <= 191 /\ (b = 224 -> 160 <= c1) /\ (b = 237 -> c1 <= 159)).
+    { destruct (Z.eqb_spec b 224); [apply range_spec in C1; lia|]. destruct (Z.eqb_spec b 237); [apply range_spec in C1; lia|].
+      apply u8cont_spec in C1. lia. }
+    clear C1. destruct C1' as (K1 & K2 & K3).
+    set (cp := (b - 224) * 4096 + (c1 - 128) * 64 + (c2 - 128)).
+    assert (Q : cp / 4096 = b - 224 /\ (cp / 64) mod 64 = c1 - 128 /\ cp mod 64 = c2 - 128).
+    { pose proof (Z.div_mod cp 64 ltac:(lia)). pose proof (Z.mod_pos_bound cp 64 ltac:(lia)).
+      pose proof (Z.div_mod (cp / 64) 64 ltac:(lia)). pose proof (Z.mod_pos_bound (cp / 64) 64 ltac:(lia)).
+      assert (cp / 4096 = cp / 64 / 64) by (rewrite Z.div_div by lia; reflexivity). unfold cp in *. lia. }
+    destruct Q as (Q1 & Q2 & Q3). assert (R : 2048 <= cp < 65536 /\ ~ (55296 <= cp <= 57343)) by (unfold cp; lia).
+    unfold utf8_encode, text_encodable in *. cbn [flat_map forallb]. rewrite E, T. unfold utf8_encode_cp, cp_encodable.
+    destruct (Z.ltb_spec cp 128); [lia|]. destruct (Z.ltb_spec cp 2048); [lia|]. destruct (Z.ltb_spec cp 65536); [|lia].
+    rewrite Q1, Q2, Q3. cbn [app]. split; [f_equal; [lia|f_equal; [lia|f_equal; lia]]|].
+    rewrite andb_true_r. apply andb_true_iff. split; [apply andb_true_iff; split; apply Z.leb_le; lia|].
+    apply negb_true_iff. apply andb_false_iff. destruct (Z.leb_spec 55296 cp); [right; apply Z.leb_gt; lia|left; reflexivity]. }
+  destruct ((240 <=? b) && (b <=? 244)) eqn:D; [|discriminate].
+  apply range_spec in D. destruct r as [|c1 [|c2 [|c3 r3]]]; try discriminate.
+  apply andb_true_iff in V as [V V3]. apply andb_true_iff in V as [V C3]. apply andb_true_iff in V as [C1 C2].
+  apply u8cont_spec in C2, C3. cbn [List.length] in L. destruct (IH r3 ltac:(lia) V3) as [E T]. cbn [utf8_decode].
+  destruct (Z.ltb_spec b 128); [lia|]. destruct (Z.ltb_spec b 224); [lia|]. destruct (Z.ltb_spec b 240); [lia|].
+  assert (C1' : 128 <= c1 <= 191 /\ (b = 240 -> 144 <= c1) /\ (b = 244 -> c1 <= 143)).
+  { destruct (Z.eqb_spec b 240); [apply range_spec in C1; lia|]. destruct (Z.eqb_spec b 244); [apply range_spec in C1; lia|].
+    apply u8cont_spec in C1. lia. }
+  clear C1. destruct C1' as (K1 & K2 & K3).
+  set (cp := (b - 240) * 262144 + (c1 - 128) * 4096 + (c2 - 128) * 64 + (c3 - 128)).
+  assert (Q : cp / 262144 = b - 240 /\ (cp / 4096) mod 64 = c1 - 128 /\ (cp / 64) mod 64 = c2 - 128 /\ cp mod 64 = c3 - 128).
+  { pose proof (Z.div_mod cp 64 ltac:(lia)). pose proof (Z.mod_pos_bound cp 64 ltac:(lia)).
+    pose proof (Z.div_mod (cp / 64) 64 ltac:(lia)). pose proof (Z.mod_pos_bound (cp / 64) 64 ltac:(lia)).
+    pose proof (Z.div_mod (cp / 4096) 64 ltac:(lia)). pose proof (Z.mod_pos_bound (cp / 4096) 64 ltac:(lia)).
+    assert (cp / 4096 = cp / 64 / 64) by (rewrite Z.div_div by lia; reflexivity).
+    assert (cp / 262144 = cp / 4096 / 64) by (rewrite Z.div_div by lia; reflexivity). unfold cp in *. lia. }
+  destruct Q as (Q1 & Q2 & Q3 & Q4). assert (R : 65536 <= cp <= 1114111) by (unfold cp; lia).
+  unfold utf8_encode, text_encodable in *. cbn [flat_map forallb]. rewrite E, T. unfold utf8_encode_cp, cp_encodable.
+  destruct (Z.ltb_spec cp 128); [lia|]. destruct (Z.ltb_spec cp 2048); [lia|]. destruct (Z.ltb_spec cp 65536); [lia|].
+  rewrite Q1, Q2, Q3, Q4. cbn [app]. split; [f_equal; [lia|f_equal; [lia|f_equal; [lia|f_equal; lia]]]|].
+  rewrite andb_true_r. apply andb_true_iff. split; [apply andb_true_iff; split; apply Z.leb_le; lia|].
+  apply negb_true_iff. apply andb_false_iff. right. apply Z.leb_gt. lia.
+Qed.
+
+Theorem utf8_valid_decode l : utf8_valid l = true ->
+  utf8_encode (utf8_decode l) = l /\ text_encodable (utf8_decode l) = true.
+Proof. apply (utf8_valid_decode_fuel (List.length l)). lia. Qed.
+
 Section Sender.
 Variable voc : list (list Z).
 
@@ -601,8 +865,12 @@ Proof.
 Qed.
 
 Lemma recv_text_ok mx vocab size cps :
-  text_body_too_long mx vocab size = false -> text_encodable cps = true -> recv_text mx [WStr vocab size cps] = RDeliver (OText cps).
-Proof. intros A B. cbn [recv_text]. rewrite A, B. rewrite andb_false_r. reflexivity. Qed.
+  text_body_too_long mx vocab size = false -> text_encodable cps = true ->
+  recv_text mx [WStr vocab size (utf8_encode cps)] = RDeliver (OText cps).
+Proof.
+  intros A B. cbn [recv_text]. rewrite A. unfold body_decodable. change unicode_unslicer_strict_decode with true. cbv iota.
+  destruct (utf8_roundtrip cps B) as (V & _ & D). rewrite V, D. reflexivity.
+Qed.
 
 Lemma ser_free : forall o w, owf o = true -> ser voc o w -> recvw None w = RDeliver o.
 Proof.
@@ -611,9 +879,10 @@ Proof.
   - atomw S. reflexivity.
   - atomw S. cbn [slice]. unfold str_token. destruct (vocab_index voc bs); reflexivity.
   - cbn [owf] in W. atomw S. cbn [slice]. unfold str_token.
-    destruct (vocab_index voc cps) as [i|];
-      [change (recvw None (WOpen OtUnicode [WStr true i cps])) with (recv_text None [WStr true i cps])
-      |change (recvw None (WOpen OtUnicode [WStr false (utf8size cps) cps])) with (recv_text None [WStr false (utf8size cps) cps])];
+    destruct (vocab_index voc (utf8_encode cps)) as [i|];
+      [change (recvw None (WOpen OtUnicode [WStr true i (utf8_encode cps)])) with (recv_text None [WStr true i (utf8_encode cps)])
+      |change (recvw None (WOpen OtUnicode [WStr false (utf8size cps) (utf8_encode cps)]))
+         with (recv_text None [WStr false (utf8size cps) (utf8_encode cps)])];
       (apply recv_text_ok; [unfold text_body_too_long; apply andb_false_r|exact W]).
   - atomw S. destruct b; reflexivity.
   - atomw S. reflexivity.
@@ -746,7 +1015,7 @@ Proof.
     destruct o; try discriminate. atomw S.
     cbn [checkObject] in CO. apply (len_ok_spec mx mn) in CO as [H1 H2].
     cbn [slice recvw]. change (slot_open (Some (CText mx mn))) with TOk. change (slot_opentype (Some (CText mx mn)) OtUnicode) with true.
-    cbn [negb child_of]. cbn [owf] in OW. unfold str_token. destruct (vocab_index voc cps) as [i|]; apply recv_text_ok; try exact OW.
+    cbn [negb child_of]. cbn [owf] in OW. unfold str_token. destruct (vocab_index voc (utf8_encode cps)) as [i|]; apply recv_text_ok; try exact OW.
     + unfold text_body_too_long. cbn [negb]. rewrite andb_false_r. reflexivity.
     + unfold text_body_too_long. destruct mx as [m|]; [|apply andb_false_r]. cbn in H1.
       change unicode_size_cmp with SGt. change unicode_size_factor with 6. cbn [scmp_eval].
@@ -944,6 +1213,63 @@ Proof.
   unfold recv_call. rewrite (recv_pos_honest ms W a 0%nat).
   - rewrite map_length. rewrite <- (map_fst_combine (names ms) a) by (unfold names; rewrite map_length; exact LE).
     rewrite recv_kw_honest.
+    + unfold doCall. change doCall_shape with CheckedBeforeCall. cbv iota. rewrite E0. reflexivity.
+    + exact A2.
+    + intros n v Hin. destruct (A3 n v) as (sp & L & Sat); [apply in_or_app; right; exact Hin|].
+      exists sp. split; [exact L|]. apply lookup_In in L as HL. destruct HL as [HL _].
+      destruct (G2 n v sp Hin L) as [O1 O2]. split; [apply W; exact HL|]. split; [exact O1|]. split; [exact O2|].
+      apply checkObject_sound. exact Sat.
+  - cbn [Nat.add]. exact LE.
+  - cbn [Nat.add]. intros j sp v E1 E2. destruct (G1 j sp v E1 E2) as [O1 O2]. split; [exact O1|]. split; [exact O2|].
+    assert (Hin : In (a_name sp, v) (combine (names ms) a ++ kw)).
+    { apply in_or_app. left. eapply combine_nth_In; [|exact E2]. unfold names. rewrite nth_error_map, E1. reflexivity. }
+    destruct (A3 _ _ Hin) as (sp' & L & Sat). rewrite (lookup_nth _ _ _ ND E1) in L. inversion L; subst sp'.
+    apply checkObject_sound. exact Sat.
+Qed.
+
+(* ---- the same for EVERY serialization of the call (sent_call): repeats of one container object inside the call travel
+   as references -- m(l, l), m([s, s]), m(a=d, b=d) -- which is what the real ArgumentSlicer emits; c12_call above is the
+   special case in which nothing is shared *)
+Lemma recv_pos_ser ms : (forall sp, In sp (ms_args ms) -> wf (a_ctr sp) = true) -> forall a p,
+  Forall2 (ser voc) a p -> forall i,
+  (i + List.length a <= List.length (ms_args ms))%nat ->
+  (forall j sp v, nth_error (ms_args ms) (i + j) = Some sp -> nth_error a j = Some v ->
+     owf v = true /\ c12_guard (a_ctr sp) v = true /\ checkObject (a_ctr sp) v = true) ->
+  recv_pos ms p i = KOk a.
+Proof.
+  intros W a p F. induction F as [|x w a p S F IH]; intros i L H; [reflexivity|].
+  cbn [recv_pos]. change posarg_full_cmp with SGe. cbn [scmp_eval List.length] in *.
+  destruct (Z.geb_spec (Z.of_nat i) (zlen (ms_args ms))) as [G|G]; [unfold zlen in G; lia|].
+  destruct (nth_error (ms_args ms) i) as [sp|] eqn:N; [|apply nth_error_None in N; lia].
+  destruct (H 0%nat sp x) as (O1 & O2 & O3); [rewrite Nat.add_0_r; exact N|reflexivity|].
+  cbn [option_map]. rewrite (c12_ser (a_ctr sp) x w (W sp (nth_error_In _ _ N)) O1 O2 O3 S).
+  rewrite IH; [reflexivity|lia|]. intros j sp' v E1 E2. apply (H (Datatypes.S j)); [rewrite Nat.add_succ_r; exact E1|exact E2].
+Qed.
+
+Lemma recv_kw_ser ms : forall kw k,
+  Forall2 (fun (nv : Z * obj) (nw : Z * wobj) => fst nv = fst nw /\ ser voc (snd nv) (snd nw)) kw k -> forall prev,
+  kw_fresh prev (map fst kw) ->
+  (forall n v, In (n, v) kw -> exists sp, lookup n (ms_args ms) = Some sp /\ wf (a_ctr sp) = true /\ owf v = true /\
+                                          c12_guard (a_ctr sp) v = true /\ checkObject (a_ctr sp) v = true) ->
+  recv_kw ms prev k = KwOk kw.
+Proof.
+  intros kw k F. induction F as [|[n v] [n' w] kw k [Hn S] F IH]; intros prev Fr H; [reflexivity|].
+  cbn [fst snd] in Hn, S. subst n'. cbn [map fst snd recv_kw kw_fresh] in *. destruct Fr as [F1 F2].
+  destruct (H n v (or_introl eq_refl)) as (sp & L & W & O1 & O2 & O3).
+  unfold getKeywordArgConstraint. destruct (memZ n prev) eqn:M; [apply memZ_In in M; contradiction|]. rewrite L.
+  change au_asserts_accept with true. cbn [negb andb]. rewrite (c12_ser (a_ctr sp) v w W O1 O2 O3 S).
+  rewrite IH; [reflexivity|exact F2|]. intros n0 v0 Hin. apply H. right. exact Hin.
+Qed.
+
+Theorem c12_call_ser : forall ms a kw, ms_wf ms -> args_guarded ms a kw ->
+  forall p k, sent_call voc ms a kw p k -> recv_call ms p k = CInvoke a kw.
+Proof.
+  intros ms a kw [ND W] [G1 G2] p k (E & _ & FP & FK).
+  pose proof E as E0. apply checkAllArgs_spec in E as (A1 & A2 & A3 & A4).
+  assert (LE : (List.length a <= List.length (ms_args ms))%nat) by (unfold zlen in A1; lia).
+  unfold recv_call. rewrite (recv_pos_ser ms W a p FP 0%nat).
+  - assert (LP : List.length a = List.length p) by (eapply Forall2_length; exact FP). rewrite <- LP. rewrite <- (map_fst_combine (names ms) a) by (unfold names; rewrite map_length; exact LE).
+    rewrite (recv_kw_ser ms kw k FK).
     + unfold doCall. change doCall_shape with CheckedBeforeCall. cbv iota. rewrite E0. reflexivity.
     + exact A2.
     + intros n v Hin. destruct (A3 n v) as (sp & L & Sat); [apply in_or_app; right; exact Hin|].
@@ -1193,6 +1519,11 @@ Corollary c12_call_stream : forall voc ms a kw, ms_wf ms -> args_guarded ms a kw
   forall p k kb, send_call voc ms a kw = Some (p, k) -> code_kws kb = k -> names_text kb = true ->
   recv_arguments ms (enc_args p kb) = CInvoke a kw.
 Proof. intros voc ms a kw W G p k kb S <- NT. rewrite recv_arguments_refines by exact NT. eapply c12_call; eassumption. Qed.
+
+Corollary c12_call_ser_stream : forall voc ms a kw, ms_wf ms -> args_guarded ms a kw ->
+  forall p k kb, sent_call voc ms a kw p k -> code_kws kb = k -> names_text kb = true ->
+  recv_arguments ms (enc_args p kb) = CInvoke a kw.
+Proof. intros voc ms a kw W G p k kb S <- NT. rewrite recv_arguments_refines by exact NT. eapply c12_call_ser; eassumption. Qed.
 
 (* names 'a' 'b' 'c' 'z' as the model's identifiers *)
 Definition nA := name_code [97].  Definition nB := name_code [98].  Definition nC := name_code [99].  Definition nZ := name_code [122].
@@ -1934,6 +2265,17 @@ Proof.
   rewrite (c12_call_stream voc ms a kw W G p k kb S K NT). reflexivity.
 Qed.
 
+Theorem call_delivered_ser voc env r c mname t tbl ms a kw :
+  (negb (r =? 0) && memZ r (be_active env)) = false -> 0 <= c -> utf8_valid mname = true ->
+  assocZ c (be_objs env) = Some t -> t_iface t = Some tbl -> assocZ (name_code mname) tbl = Some ms ->
+  ms_wf ms -> args_guarded ms a kw ->
+  forall p k kb, sent_call voc ms a kw p k -> code_kws kb = k -> names_text kb = true ->
+  recv_call_stream env (call_kids r c mname (enc_args p kb)) = QInvoke c (Some (name_code mname)) ms a kw.
+Proof.
+  intros A C U L1 L2 L3 W G p k kb S K NT. rewrite (call_stream_framed env r c mname _ t tbl ms A C U L1 L2 L3).
+  rewrite (c12_call_ser_stream voc ms a kw W G p k kb S K NT). reflexivity.
+Qed.
+
 Definition envX : benv :=
   {| be_objs := [(0, {| t_iface := None; t_methodSchema := None |});
                  (3, {| t_iface := Some [(name_code [109], ms3 false false); (name_code [110], msL)]; t_methodSchema := None |});
@@ -1962,130 +2304,7 @@ Example hostile_calls :
 Proof. vm_compute. repeat split; reflexivity. Qed.
 
 (* ------------------------------------------------------------------ C12: text without a UTF-8 form *)
-Lemma utf8_encode_cp_len cp : zlen (utf8_encode_cp cp) = utf8len cp.
-Proof.
-  unfold utf8_encode_cp, utf8len. destruct (cp <? 128), (cp <? 2048), (cp <? 65536); reflexivity.
-Qed.
-
-Lemma utf8_encode_size cps : zlen (utf8_encode cps) = utf8size cps.
-Proof.
-  induction cps as [|cp cps IH]; [reflexivity|].
-  unfold utf8_encode. cbn [flat_map]. fold (utf8_encode cps). unfold zlen. rewrite app_length, Nat2Z.inj_add.
-  fold (zlen (utf8_encode_cp cp)). fold (zlen (utf8_encode cps)). rewrite utf8_encode_cp_len, IH. reflexivity.
-Qed.
-
-Lemma in_range a b x : a <= x <= b -> (a <=? x) && (x <=? b) = true.
-Proof. intros. apply andb_true_iff. split; apply Z.leb_le; lia. Qed.
-Lemma below_range a b x : x < a -> (a <=? x) && (x <=? b) = false.
-Proof. intros. apply andb_false_iff. left. apply Z.leb_gt. lia. Qed.
-Lemma above_range a b x : b < x -> (a <=? x) && (x <=? b) = false.
-Proof. intros. apply andb_false_iff. right. apply Z.leb_gt. lia. Qed.
-Lemma not_ascii x : 128 <= x -> (0 <=? x) && (x <? 128) = false.
-Proof. intros. apply andb_false_iff. right. apply Z.ltb_ge. lia. Qed.
-
-Lemma utf8_valid1 b r : 0 <= b < 128 -> utf8_valid (b :: r) = utf8_valid r.
-Proof.
-  intros. cbn [utf8_valid]. replace ((0 <=? b) && (b <? 128)) with true; [reflexivity|].
-  symmetry. apply andb_true_iff. split; [apply Z.leb_le|apply Z.ltb_lt]; lia.
-Qed.
-
-Lemma utf8_valid2 b0 b1 r : 194 <= b0 <= 223 -> 128 <= b1 <= 191 -> utf8_valid (b0 :: b1 :: r) = utf8_valid r.
-Proof.
-  intros. cbn [utf8_valid]. unfold u8cont. rewrite (not_ascii b0) by lia. rewrite (in_range 194 223 b0) by lia.
-  rewrite (in_range 128 191 b1) by lia. reflexivity.
-Qed.
-
-Lemma utf8_valid3 b0 b1 b2 r : 224 <= b0 <= 239 -> 128 <= b1 <= 191 -> 128 <= b2 <= 191 ->
-  (b0 = 224 -> 160 <= b1) -> (b0 = 237 -> b1 <= 159) -> utf8_valid (b0 :: b1 :: b2 :: r) = utf8_valid r.
-Proof.
-  intros A B C D E. cbn [utf8_valid]. unfold u8cont. rewrite (not_ascii b0) by lia. rewrite (above_range 194 223 b0) by lia.
-  rewrite (in_range 224 239 b0) by lia. rewrite (in_range 128 191 b2) by lia.
-  destruct (Z.eqb_spec b0 224) as [X|X]; [rewrite (in_range 160 191 b1) by lia; reflexivity|].
-  destruct (Z.eqb_spec b0 237) as [Y|Y]; [rewrite (in_range 128 159 b1) by lia; reflexivity|].
-  rewrite (in_range 128 191 b1) by lia. reflexivity.
-Qed.
-
-Lemma utf8_valid4 b0 b1 b2 b3 r : 240 <= b0 <= 244 -> 128 <= b1 <= 191 -> 128 <= b2 <= 191 -> 128 <= b3 <= 191 ->
-  (b0 = 240 -> 144 <= b1) -> (b0 = 244 -> b1 <= 143) -> utf8_valid (b0 :: b1 :: b2 :: b3 :: r) = utf8_valid r.
-Proof.
-  intros A B C C' D E. cbn [utf8_valid]. unfold u8cont. rewrite (not_ascii b0) by lia. rewrite (above_range 194 223 b0) by lia.
-  rewrite (above_range 224 239 b0) by lia. rewrite (in_range 240 244 b0) by lia.
-  rewrite (in_range 128 191 b2) by lia. rewrite (in_range 128 191 b3) by lia.
-  destruct (Z.eqb_spec b0 240) as [X|X]; [rewrite (in_range 144 191 b1) by lia; reflexivity|].
-  destruct (Z.eqb_spec b0 244) as [Y|Y]; [rewrite (in_range 128 143 b1) by lia; reflexivity|].
-  rewrite (in_range 128 191 b1) by lia. reflexivity.
-Qed.
-
-Lemma utf8_encode_cp_valid cp r : cp_encodable cp = true -> utf8_valid (utf8_encode_cp cp ++ r) = utf8_valid r.
-Proof.
-  unfold cp_encodable. intros E.
-  apply andb_true_iff in E as [E E3]. apply andb_true_iff in E as [E1 E2].
-  apply Z.leb_le in E1, E2. apply negb_true_iff in E3.
-  assert (S : cp < 55296 \/ 57343 < cp).
-  { destruct (Z.leb_spec 55296 cp), (Z.leb_spec cp 57343); cbn in E3; try discriminate; lia. }
-  clear E3. unfold utf8_encode_cp.
-  destruct (Z.ltb_spec cp 128); [apply utf8_valid1; lia|].
-  destruct (Z.ltb_spec cp 2048).
-  { cbn [app]. apply utf8_valid2.
-    - pose proof (Z.div_le_mono 128 cp 64 ltac:(lia) ltac:(lia)). pose proof (Z.div_lt_upper_bound cp 64 32 ltac:(lia) ltac:(lia)).
-      change (128 / 64) with 2 in *. lia.
-    - pose proof (Z.mod_pos_bound cp 64 ltac:(lia)). lia. }
-  destruct (Z.ltb_spec cp 65536).
-  { cbn [app]. 
-    pose proof (Z.mod_pos_bound cp 64 ltac:(lia)). pose proof (Z.mod_pos_bound (cp / 64) 64 ltac:(lia)).
-    assert (Q1 : cp / 4096 = (cp / 64) / 64) by (rewrite Z.div_div by lia; reflexivity).
-    pose proof (Z.div_mod cp 64 ltac:(lia)) as M1. pose proof (Z.div_mod (cp / 64) 64 ltac:(lia)) as M2.
-    set (q := cp / 64) in *. set (h := q / 64) in *. set (m1 := cp mod 64) in *. set (m2 := q mod 64) in *. rewrite Q1.
-    apply utf8_valid3; lia. }
-  cbn [app].
-  pose proof (Z.mod_pos_bound cp 64 ltac:(lia)). pose proof (Z.mod_pos_bound (cp / 64) 64 ltac:(lia)).
-  pose proof (Z.mod_pos_bound (cp / 4096) 64 ltac:(lia)).
-  assert (Q1 : cp / 4096 = (cp / 64) / 64) by (rewrite Z.div_div by lia; reflexivity).
-  assert (Q2 : cp / 262144 = ((cp / 64) / 64) / 64) by (rewrite !Z.div_div by lia; reflexivity).
-  rewrite Q2. rewrite Q1 in *.
-  pose proof (Z.div_mod cp 64 ltac:(lia)) as M1. pose proof (Z.div_mod (cp / 64) 64 ltac:(lia)) as M2.
-  pose proof (Z.div_mod (cp / 64 / 64) 64 ltac:(lia)) as M3.
-  set (q := cp / 64) in *. set (h := q / 64) in *. set (g := h / 64) in *.
-  set (m1 := cp mod 64) in *. set (m2 := q mod 64) in *. set (m3 := h mod 64) in *.
-  apply utf8_valid4; lia.
-Qed.
-
-Theorem utf8_encode_valid cps : text_encodable cps = true -> utf8_valid (utf8_encode cps) = true /\ zlen (utf8_encode cps) = utf8size cps.
-Proof.
-  intros E. split; [|apply utf8_encode_size].
-  induction cps as [|cp cps IH]; [reflexivity|]. unfold text_encodable in E. cbn [forallb] in E. apply andb_true_iff in E as [E1 E2].
-  unfold utf8_encode. cbn [flat_map]. fold (utf8_encode cps). rewrite utf8_encode_cp_valid by exact E1. apply IH. exact E2.
-Qed.
-
-(* a lone surrogate in its generic three-byte form (what errors="surrogatepass" emits) is refused by the strict decoder *)
-Lemma utf8_surrogate_invalid cp r : 55296 <= cp <= 57343 -> utf8_valid (utf8_encode_cp cp ++ r) = false.
-Proof.
-  intros R. unfold utf8_encode_cp. destruct (Z.ltb_spec cp 128); [lia|]. destruct (Z.ltb_spec cp 2048); [lia|].
-  destruct (Z.ltb_spec cp 65536); [|lia]. cbn [app].
-  pose proof (Z.mod_pos_bound cp 64 ltac:(lia)). pose proof (Z.mod_pos_bound (cp / 64) 64 ltac:(lia)).
-  assert (Q1 : cp / 4096 = (cp / 64) / 64) by (rewrite Z.div_div by lia; reflexivity).
-  pose proof (Z.div_mod cp 64 ltac:(lia)) as M1. pose proof (Z.div_mod (cp / 64) 64 ltac:(lia)) as M2.
-  set (q := cp / 64) in *. set (h := q / 64) in *. set (m1 := cp mod 64) in *. set (m2 := q mod 64) in *. rewrite Q1.
-  assert (Hh : h = 13) by lia. rewrite Hh. change (224 + 13) with 237.
-  cbn [utf8_valid]. change ((0 <=? 237) && (237 <? 128)) with false. change ((194 <=? 237) && (237 <=? 223)) with false.
-  change ((224 <=? 237) && (237 <=? 239)) with true. change (237 =? 224) with false. change (237 =? 237) with true. cbv iota.
-  rewrite (above_range 128 159 (128 + m2)) by lia. reflexivity.
-Qed.
-
-Definition cp_in_range (cp : Z) : bool := (0 <=? cp) && (cp <=? 1114111).
-
-(* the receiver's strict decoder accepts the generic UTF-8 form of a text exactly when the text is encodable: what the
-   strict encoder refuses is what the receiver would refuse *)
-Theorem utf8_encode_valid_iff cps : forallb cp_in_range cps = true -> utf8_valid (utf8_encode cps) = text_encodable cps.
-Proof.
-  induction cps as [|cp cps IH]; [reflexivity|]. cbn [forallb]. intros E. apply andb_true_iff in E as [E1 E2].
-  unfold utf8_encode, text_encodable. cbn [flat_map forallb]. fold (utf8_encode cps). fold (text_encodable cps).
-  destruct (cp_encodable cp) eqn:C.
-  - rewrite utf8_encode_cp_valid by exact C. cbn [andb]. apply IH. exact E2.
-  - cbn [andb]. apply utf8_surrogate_invalid. unfold cp_in_range in E1. unfold cp_encodable in C.
-    rewrite E1 in C. cbn [andb] in C. apply negb_false_iff in C. apply andb_true_iff in C as [C1 C2].
-    apply Z.leb_le in C1, C2. lia.
-Qed.
+(* (the lemmas about utf8_encode / utf8_valid / utf8_decode stand before Section Sender) *)
 
 (* ---- the sender refuses text without a UTF-8 form locally *)
 Lemma forallb_eq {A} (f g : A -> bool) l : (forall x, f x = g x) -> forallb f l = forallb g l.
@@ -2118,6 +2337,130 @@ Example unencodable_witness :
   encodable (OText [55295; 57344; 1114111]) = true /\ utf8_valid (utf8_encode [55295; 57344; 1114111]) = true /\
   recvw (Some (CText (Some 3) 0)) (slice [] (OText [55295; 57344; 1114111])) = RDeliver (OText [55295; 57344; 1114111]).
 Proof. vm_compute. repeat split; reflexivity. Qed.
+
+
+(* ------------------------------------------------------------------ C02: the body of a unicode sequence is ANY byte string
+   the peer chooses (UnicodeUnslicer.receiveChild decodes it; since 66cc69a a body that is not UTF-8 is a Violation) *)
+Theorem recv_text_delivers_decoded mx kids v : recv_text mx kids = RDeliver v ->
+  (kids = [] /\ v = ONone) \/
+  exists vocab size bs, kids = [WStr vocab size bs] /\ utf8_valid bs = true /\ v = OText (utf8_decode bs).
+Proof.
+  unfold recv_text, body_decodable. change unicode_unslicer_strict_decode with true. cbv iota.
+  destruct kids as [|[| |vocab size bs| | |] rest]; intros E; try discriminate E.
+  - left. inversion E. auto.
+  - right. destruct (text_body_too_long mx vocab size); [discriminate|]. destruct (utf8_valid bs) eqn:V; cbn [negb] in E.
+    + destruct rest; [|discriminate]. inversion E. exists vocab, size, bs. auto.
+    + destruct unicode_unslicer_undecodable_violation; discriminate.
+Qed.
+
+Theorem nontext_body_violation mx vocab size bs rest : utf8_valid bs = false ->
+  recv_text mx (WStr vocab size bs :: rest) = RViol.
+Proof.
+  intros V. cbn [recv_text]. destruct (text_body_too_long mx vocab size); [reflexivity|].
+  unfold body_decodable. change unicode_unslicer_strict_decode with true. cbv iota. rewrite V. cbn [negb].
+  change unicode_unslicer_undecodable_violation with true. reflexivity.
+Qed.
+
+Theorem nontext_body_violation_slot oc vocab size bs rest : utf8_valid bs = false ->
+  (oc = None \/ oc = Some CAny \/ exists mx mn, oc = Some (CText mx mn)) ->
+  recvw oc (WOpen OtUnicode (WStr vocab size bs :: rest)) = RViol.
+Proof.
+  intros V [->|[->|(mx & mn & ->)]].
+  - change (recvw None (WOpen OtUnicode (WStr vocab size bs :: rest))) with (recv_text None (WStr vocab size bs :: rest)).
+    apply nontext_body_violation, V.
+  - change (recvw (Some CAny) (WOpen OtUnicode (WStr vocab size bs :: rest))) with (recv_text None (WStr vocab size bs :: rest)).
+    apply nontext_body_violation, V.
+  - change (recvw (Some (CText mx mn)) (WOpen OtUnicode (WStr vocab size bs :: rest))) with (recv_text mx (WStr vocab size bs :: rest)).
+    apply nontext_body_violation, V.
+Qed.
+
+Corollary nontext_body_call_violation mx mn vocab size bs rest : utf8_valid bs = false ->
+  recv_call (ms1 (CText mx mn)) [WOpen OtUnicode (WStr vocab size bs :: rest)] [] = CViol /\
+  recv_call (ms1 (CList (CText mx mn) None 0)) [WOpen OtList [WOpen OtUnicode (WStr vocab size bs :: rest)]] [] = CViol /\
+  recv_answer (Some (CText mx mn)) (WOpen OtUnicode (WStr vocab size bs :: rest)) = Errback.
+Proof.
+  intros V. pose proof (nontext_body_violation_slot (Some (CText mx mn)) vocab size bs rest V
+                          (or_intror (or_intror (ex_intro _ mx (ex_intro _ mn eq_refl))))) as R.
+  split; [|split].
+  - unfold recv_call. cbn [recv_pos ms1 mkms ms_args nth_error option_map a_ctr]. change posarg_full_cmp with SGe.
+    change (scmp_eval SGe (Z.of_nat 0) (zlen [{| a_name := nA; a_ctr := CText mx mn; a_opt := false |}])) with false.
+    cbv iota. rewrite R. reflexivity.
+  - unfold recv_call. cbn [recv_pos ms1 mkms ms_args nth_error option_map a_ctr]. change posarg_full_cmp with SGe.
+    cbv iota.
+    set (X := WOpen OtUnicode (WStr vocab size bs :: rest)) in *.
+    change (recvw (Some (CList (CText mx mn) None 0)) (WOpen OtList [X]))
+      with (match kids_with recvw (ChList (Some (CText mx mn)) None) [X] 0 with
+            | KOk l => RDeliver (build (ChList (Some (CText mx mn)) None) l) | KViol => RViol | KAbort => RAbort end).
+    cbn [kids_with child_slot over_max]. rewrite R. reflexivity.
+  - unfold recv_answer. rewrite R. reflexivity.
+Qed.
+
+Corollary recv_text_delivers_sent_form mx kids t : recv_text mx kids = RDeliver (OText t) ->
+  text_encodable t = true /\ exists vocab size, kids = [WStr vocab size (utf8_encode t)].
+Proof.
+  intros E. apply recv_text_delivers_decoded in E as [[_ E]|(vocab & size & bs & -> & V & E)]; [discriminate|].
+  inversion E; subst t. destruct (utf8_valid_decode bs V) as [A B]. split; [exact B|]. exists vocab, size. rewrite A. reflexivity.
+Qed.
+
+Example nontext_body_examples :
+  utf8_valid [255] = false /\ utf8_valid [192; 128] = false /\ utf8_valid [237; 160; 128] = false /\ utf8_valid [195; 169] = true /\
+  recv_call (ms1 (CText None 0)) [WOpen OtUnicode [WStr false 1 [255]]] [] = CViol /\
+  recv_call (ms1 CAny) [WOpen OtList [WOpen OtUnicode [WStr false 2 [192; 128]]]] [] = CViol /\
+  recv_answer (Some (CText (Some 3) 0)) (WOpen OtUnicode [WStr false 3 [237; 160; 128]]) = Errback /\
+  recv_call (ms1 (CText None 0)) [WOpen OtUnicode [WStr false 2 [195; 169]]] [] = CInvoke [OText [233]] [] /\
+  recv_answer (Some (CText (Some 1) 0)) (WOpen OtUnicode [WStr false 4 [240; 159; 152; 128]]) = Callback (OText [128512]).
+Proof. vm_compute. repeat split; reflexivity. Qed.
+
+(* ---- C02: my-reference.  The interface name and the URL go through six.ensure_str with no handler (the remaining sites of
+   the family 0c0affc / bc46263 / 66cc69a; known finding oracle/non-utf8-reference-name-drops-connection): inside the guard
+   "the name is text" a reference without URL is delivered; a name / URL that is not UTF-8 gets what the translated flags
+   say -- on the current tree the connection is lost (reference_name_refuted).  Text URLs: see Schema.recv_myref. *)
+Theorem myref_text_delivered tb s v vb sz name :
+  (tb =? tok_INT) || (tb =? tok_NEG) = true -> utf8_valid name = true ->
+  recv_myref [WInt tb s v; WStr vb sz name] = RDeliver (ORemote name).
+Proof. intros T N. cbn [recv_myref]. rewrite T, N. reflexivity. Qed.
+
+Theorem myref_nontext_name_outcome tb s v vb sz name rest :
+  (tb =? tok_INT) || (tb =? tok_NEG) = true -> utf8_valid name = false ->
+  recv_myref (WInt tb s v :: WStr vb sz name :: rest) = (if myref_nontext_name_violation then RViol else RAbort).
+Proof. intros T N. cbn [recv_myref]. rewrite T, N. reflexivity. Qed.
+
+Theorem myref_nontext_url_outcome tb s v vb sz name vb2 sz2 url :
+  (tb =? tok_INT) || (tb =? tok_NEG) = true -> utf8_valid name = true -> utf8_valid url = false ->
+  recv_myref [WInt tb s v; WStr vb sz name; WStr vb2 sz2 url] = (if myref_nontext_url_violation then RViol else RAbort).
+Proof. intros T N U. cbn [recv_myref]. rewrite T, N, U. reflexivity. Qed.
+
+Theorem reference_name_refuted :
+  recv_call (ms1 CAny) [WOpen OtMyRef [WInt 129 5 5; WStr false 2 [168; 97]]] [] = CAbort /\
+  recv_call (ms1 (CRemote None)) [WOpen OtMyRef [WInt 129 5 5; WStr false 2 [82; 73]; WStr false 1 [255]]] [] = CAbort /\
+  recv_call (ms1 (CList CAny None 0)) [WOpen OtList [WOpen OtMyRef [WInt 129 5 5; WStr false 2 [168; 97]]]] [] = CAbort /\
+  recv_answer (Some CAny) (WOpen OtMyRef [WInt 129 5 5; WStr false 2 [168; 97]]) = ConnLost /\
+  recv_call (ms1 CAny) [WOpen OtMyRef [WInt 131 5 (-5); WStr false 2 [82; 73]]] [] = CInvoke [ORemote [82; 73]] [] /\
+  recv_call (ms1 CAny) [WOpen OtMyRef [WInt 129 5 5; WStr false 2 [195; 169]]] [] = CInvoke [ORemote [195; 169]] [].
+Proof. vm_compute. repeat split; reflexivity. Qed.
+
+(* ---- C12: m(l, l) -- the stream the real sender emits (second occurrence as a reference) is a sent_call, the tree
+   stream of send_call is another one; both are delivered *)
+Example shared_list_call :
+  let l := OList [OInt 1; OInt 2] in let c := CList (CInt (Some 1024)) None 0 in
+  let ms := mkms [{| a_name := nA; a_ctr := c; a_opt := false |}; {| a_name := nB; a_ctr := c; a_opt := false |}] None in
+  ms_wf ms /\ args_guarded ms [l; l] [] /\
+  sent_call [] ms [l; l] [] [slice [] l; WRef l] [] /\
+  send_call [] ms [l; l] [] = Some ([slice [] l; slice [] l], []) /\
+  recv_call ms [slice [] l; WRef l] [] = CInvoke [l; l] [].
+Proof.
+  cbv zeta. split; [|split; [|split; [|split]]].
+  - split; [|intros sp [<-|[<-|[]]]; reflexivity].
+    apply NoDup_cons; [intros [H|[]]; vm_compute in H; discriminate|apply NoDup_cons; [intros []|apply NoDup_nil]].
+  - split.
+    + intros [|[|i]] sp v E1 E2; cbn in E1, E2; try (inversion E1; inversion E2; subst; split; reflexivity); destruct i; discriminate.
+    + intros n v sp [].
+  - split; [vm_compute; reflexivity|split; [vm_compute; reflexivity|split]].
+    + constructor; [apply ser_slice; reflexivity|constructor; [apply ser_ref; reflexivity|constructor]].
+    + constructor.
+  - vm_compute. reflexivity.
+  - vm_compute. reflexivity.
+Qed.
 
 (* ------------------------------------------------------------------ C02: RemoteInterfaces that derive from RemoteInterfaces *)
 Lemma assocZ_app {V} n (l1 l2 : list (Z * V)) :
